@@ -17,6 +17,21 @@ CHECKS = {
          'Every valid column alone, in every ordered pair with the probe set (thorough: with every column), every ordered subset of each derived-column cluster: the values must equal the fields=all load bit for bit and no request may raise.',
          'the all-fields load is the reference; in-memory asdf double',
          'DESIGN.md 4/C02'),
+ 'C03': ('exploration',
+         'exhaustive enumeration of (catalog, ordered file subset, per-superslab row mask, option) tuples on the real loader with a recording filter function; ownership model + differential masked-concatenation oracle',
+         'All ordered non-empty file subsets and the directory, all 2^n row masks (keep-none and keep-all included) for every catalog of the bounded family: the result must equal the masked concatenation of the single-file loads, slices re-indexed contiguously, and the filter must have been shown N = cleaned count.',
+         'in-memory asdf double; filter called once per file in order',
+         'DESIGN.md 4/C03'),
+ 'C05': ('exploration',
+         'exhaustive sweep of every int16 value of every compressed ratio column x reference values x (BoxSize, VelZSpace_to_kms) pairs x conversion on/off x cleaned on/off, against a kind table written from the statement',
+         'Each column is checked three ways: converted/unconverted equals the kind factor, stored value equals the raw file column (ratio x reference), and the principal dispersions square-sum to sigmav3d^2.',
+         'kind table (length / velocity / ratio / unchanged) is the specification; float32 tolerance 4 ulp',
+         'DESIGN.md 4/C05'),
+ 'C18': ('exploration',
+         'complete sweep of the 65340-code input domain in three batchings and through the catalog loader; geometric oracle',
+         'Whole-domain enumeration: orthonormality to 1e-12, handedness, pairwise distinctness, hemisphere covering within the 4 degree cell.',
+         'valid codes are 0..65339; covering measured on a 2e5-point net',
+         'DESIGN.md 4/C18'),
  'C19': ('exploration',
          'exhaustive enumeration of the finite input product (lengths x flags x offsets x dtypes x output lengths) on the interpreted twin, the compiled kernel in guard zones and the NUMBA_BOUNDSCHECK=1 build',
          'Every (length 0..9, initial, final, offset, dtype pairing, output length) combination is executed three ways and compared with numpy.cumsum; the loop body has no length-dependent branch beyond N=0/1, so 0..9 covers every path.',
